@@ -283,6 +283,139 @@ func c10Raw(r *RNG, n int, tiny bool) *c10Circ {
 	return &c10Circ{kind: kind, circ: c}
 }
 
+// AND level sizes around the 64-bit word boundaries of andBatchFlush
+var c10BoundarySizes = []int{1, 63, 64, 65, 127, 128, 129, 192, 256}
+
+// c10Levelled builds a single-assignment circuit whose AND level l (as
+// AssignLevels(TargetGMW) computes it) has exactly andSizes[l] gates: the
+// first operand of every AND of level l > 0 is an AND output of level l-1.
+// directed: nothing but the ANDs, outputs = all AND wires (every gate of a
+// batch is observed on its own).  Otherwise XOR/XNOR/INV gates are mixed in
+// and the outputs are XOR collectors over groups of 8 AND wires.
+func c10Levelled(r *RNG, n int, andSizes []int, directed bool) *c10Circ {
+	ni := r.Range(2*n, 2*n+8)
+	var gates []circuit.Gate
+	next := ni
+	avail := make([]int, ni)
+	for i := range avail {
+		avail[i] = i
+	}
+	var prev, allAnds []int
+	for _, k := range andSizes {
+		var cur []int
+		for j := 0; j < k; j++ {
+			in0 := avail[r.Intn(len(avail))]
+			if len(prev) > 0 {
+				in0 = prev[j%len(prev)]
+			}
+			in1 := avail[r.Intn(len(avail))]
+			gates = append(gates, circuit.Gate{Input0: circuit.Wire(in0), Input1: circuit.Wire(in1), Output: circuit.Wire(next), Op: circuit.AND})
+			cur = append(cur, next)
+			next++
+		}
+		avail = append(avail, cur...)
+		allAnds = append(allAnds, cur...)
+		prev = cur
+		if !directed {
+			for x := r.Intn(k/2 + 2); x > 0; x-- {
+				op := []circuit.Operation{circuit.XOR, circuit.XOR, circuit.XNOR, circuit.INV}[r.Intn(4)]
+				g := circuit.Gate{Input0: circuit.Wire(avail[r.Intn(len(avail))]), Input1: circuit.Wire(avail[r.Intn(len(avail))]), Output: circuit.Wire(next), Op: op}
+				if op == circuit.INV {
+					g.Input1 = 0
+				}
+				gates = append(gates, g)
+				avail = append(avail, next)
+				next++
+			}
+		}
+	}
+	no := len(allAnds)
+	if !directed {
+		// collectors: XOR of (about) 8 consecutive AND wires; the final gate
+		// of every collector comes last so that the outputs are the last
+		// wires.  Every group has at least two wires (total >= 2 here).
+		var groups [][]int
+		for i := 0; i < len(allAnds); i += 8 {
+			end := i + 8
+			if end > len(allAnds) {
+				end = len(allAnds)
+			}
+			groups = append(groups, allAnds[i:end])
+		}
+		if lg := len(groups); lg >= 2 && len(groups[lg-1]) == 1 {
+			groups[lg-2] = append(append([]int(nil), groups[lg-2]...), groups[lg-1]...)
+			groups = groups[:lg-1]
+		}
+		var partial, last []int
+		for _, grp := range groups {
+			acc := grp[0]
+			for _, w := range grp[1 : len(grp)-1] {
+				gates = append(gates, circuit.Gate{Input0: circuit.Wire(acc), Input1: circuit.Wire(w), Output: circuit.Wire(next), Op: circuit.XOR})
+				acc = next
+				next++
+			}
+			partial = append(partial, acc)
+			last = append(last, grp[len(grp)-1])
+		}
+		for i := range partial {
+			gates = append(gates, circuit.Gate{Input0: circuit.Wire(partial[i]), Input1: circuit.Wire(last[i]), Output: circuit.Wire(next), Op: circuit.XOR})
+			next++
+		}
+		no = len(partial)
+	}
+	c := &circuit.Circuit{NumGates: len(gates), NumWires: next, Gates: gates}
+	c.Inputs = c10IO("p", c10Partition(r, ni, n))
+	c.Outputs = c10IO("r", []int{no})
+	for _, g := range gates {
+		c.Stats[g.Op]++
+	}
+	kind := "raw-levels"
+	if directed {
+		kind = fmt.Sprintf("directed-levels%v", andSizes)
+	}
+	return &c10Circ{kind: kind, circ: c}
+}
+
+// c10RandomLevelSizes: 2..6 AND levels, sizes from the boundary set with
+// probability 2/3
+func c10RandomLevelSizes(r *RNG) []int {
+	sz := make([]int, r.Range(2, 6))
+	for i := range sz {
+		if r.Intn(3) < 2 {
+			sz[i] = c10BoundarySizes[r.Intn(len(c10BoundarySizes))]
+		} else {
+			sz[i] = r.Range(1, 200)
+		}
+	}
+	return sz
+}
+
+type c10DirJob struct {
+	n       int
+	levels  []int
+	allOnes bool
+}
+
+// c10DirectedJobs: for every boundary size a single-level and a two-level
+// circuit, each for 2 and 3 parties and with all-one and random inputs
+// (72 small online-only networks, in every tier).
+func c10DirectedJobs(c *Ctx, r *RNG) []c10DirJob {
+	var jobs []c10DirJob
+	for _, k := range c10BoundarySizes {
+		for _, n := range []int{2, 3} {
+			for _, ones := range []bool{true, false} {
+				k2 := c10BoundarySizes[r.Intn(len(c10BoundarySizes))]
+				two := []int{k, k2}
+				if r.Bool() {
+					two = []int{k2, k}
+				}
+				jobs = append(jobs, c10DirJob{n, []int{k}, ones}, c10DirJob{n, two, ones})
+			}
+		}
+	}
+	return jobs
+}
+
 func c10GenCircuit(c *Ctx, r *RNG, n int, which int) *c10Circ {
 	for attempt := 0; attempt < 20; attempt++ {
 		switch which {
@@ -313,6 +446,8 @@ func c10GenCircuit(c *Ctx, r *RNG, n int, which int) *c10Circ {
 			return cc
 		case 2:
 			return c10Raw(r, n, false)
+		case 4:
+			return c10Levelled(r, n, c10RandomLevelSizes(r), false)
 		default:
 			return c10Raw(r, n, true)
 		}
@@ -569,6 +704,17 @@ func c10RndSX(r *RNG, sizes []int) SX {
 	return L(rows...)
 }
 
+func c10FirstDiff(got []string, want string) int {
+	for _, g := range got {
+		for i := 0; i < len(g) && i < len(want); i++ {
+			if g[i] != want[i] {
+				return i
+			}
+		}
+	}
+	return -1
+}
+
 // ---------------------------------------------------------------- runner
 
 func runC10(c *Ctx) error {
@@ -578,17 +724,28 @@ func runC10(c *Ctx) error {
 		os.Stdout = devnull // gmw prints "New peer ..." lines
 		defer func() { os.Stdout = saved; devnull.Close() }()
 	}
-	nconf := c.N(18, 110) // two networks per configuration
+	nconf := c.N(14, 110) // two networks per configuration
 	timeout := 40 * time.Second
-	for i := 0; i < nconf; i++ {
+	directed := c10DirectedJobs(c, c.rng.Fork())
+	for i := 0; i < nconf+len(directed); i++ {
 		r := c.rng.Fork()
+		var dj *c10DirJob
+		if i >= nconf {
+			dj = &directed[i-nconf]
+		}
 		n := 2 + i%4
-		which := []int{0, 1, 2, 3, 0, 1, 2, 0, 1}[i%9]
+		which := []int{0, 1, 2, 3, 4, 1, 2, 0, 4}[i%9]
 		if c.Thorough() && i >= 94 {
 			which = 3
 			n = 2
 		}
-		cc := c10GenCircuit(c, r, n, which)
+		var cc *c10Circ
+		if dj != nil {
+			n = dj.n
+			cc = c10Levelled(r, n, dj.levels, true)
+		} else {
+			cc = c10GenCircuit(c, r, n, which)
+		}
 		circ := cc.circ
 		circ.AssignLevels(utils.TargetGMW)
 		sizes := make([]int, n)
@@ -603,6 +760,12 @@ func runC10(c *Ctx) error {
 			v := new(big.Int)
 			mode := r.Intn(8)
 			for b := 0; b < sizes[p]; b++ {
+				if dj != nil {
+					mode = 2
+					if dj.allOnes {
+						mode = 1
+					}
+				}
 				if mode == 0 {
 					continue
 				}
@@ -665,6 +828,9 @@ func runC10(c *Ctx) error {
 		mkDelays := func() ([][]int, []int) {
 			d := make([][]int, n)
 			style := r.Intn(4)
+			if dj != nil {
+				style = 0
+			}
 			for p := range d {
 				d[p] = make([]int, 4)
 				for k := range d[p] {
@@ -750,7 +916,17 @@ func runC10(c *Ctx) error {
 			} else if len(gotStr) == n {
 				rp := replay
 				rp.Got = gotStr
-				c.Fail(fmt.Sprintf("c10:online:wrong-output:kind=%s", cc.kind), "a party's GMW output differs from Circuit.Compute", rp)
+				rp.Detail = fmt.Sprintf("AND gates per level (batch sizes of andBatchFlush): %v; first wrong output bit %d", counts, c10FirstDiff(gotStr, bitsString(wantBits)))
+				key := fmt.Sprintf("c10:online:wrong-output:kind=%s", cc.kind)
+				if dj != nil || cc.kind == "raw-levels" {
+					key = "c10:and-batch:len%64!=0"
+					for _, k := range counts {
+						if k%64 == 0 {
+							key = "c10:and-batch:len%64==0"
+						}
+					}
+				}
+				c.Fail(key, "a party's GMW output differs from Circuit.Compute", rp)
 			}
 		}
 		if ok {
@@ -786,6 +962,10 @@ func runC10(c *Ctx) error {
 				c.Sample(map[string]interface{}{"parties": n, "kind": cc.kind, "source": cc.src, "inputs": inStr,
 					"outputs": gotStr, "and_per_level": counts})
 			}
+		}
+
+		if dj != nil {
+			continue // directed batch-size circuits: online run only
 		}
 
 		// ------------------------------------------------ drain run
